@@ -1,6 +1,7 @@
 import Gv.Oracle.SW
+import Gv.Oracle.CliSW
 import Gv.Oracle.Loop
 /-! oracle of property C09: only the handlers it needs -/
 open Gv Gv.Oracle
 
-def main : IO Unit := runOracle [SWOps.handle]
+def main : IO Unit := runOracle [CliSWOps.handle, SWOps.handle]
